@@ -66,7 +66,10 @@ func ruleBlockSeek(c *Ctx, r *Rep, tier string) {
 		}
 		ok = false
 		for _, b := range fn.Blocks {
-			ce, isC := classifyErrIf(b, func(v ssa.Value) bool { ex, isEx := v.(*ssa.Extract); return isEx && seek != nil && ex.Tuple == ssa.Value(seek) })
+			ce, isC := classifyErrIf(b, func(v ssa.Value) bool {
+				ex, isEx := v.(*ssa.Extract)
+				return isEx && seek != nil && ex.Tuple == ssa.Value(seek)
+			})
 			if isC && ce.isNil && dominatedByEdge(fn, b, ce.yes, st.Block()) {
 				ok = true
 			}
